@@ -223,6 +223,10 @@ def run(ctx):
     ctx.check(not bad, "C03.verify", "C03.verify:no-ignored-failure", w.where(f), bad_msg="a failed signature verification does not fail verify_event")
 
     hash_and_sign_rule(ctx, w, "C03.hash_and_sign")
+    # the required signers are the SERVER NAMES of the sender, of the event id (v1-v2) and of the authorising user: the accessors that cut the
+    # server name out of these identifiers must split where the validator looked (an `rfind(':')` takes `8448` out of `$e:host:8448`)
+    from . import C10 as _C10
+    _C10.split_agreement(ctx, W.World(fx, ["ruma_common", "ruma_identifiers_validation"]), "C03.server-of-id", only=("event_id::EventId", "user_id::UserId"))
     # C03 relies on redaction being the specification's and idempotent (the signed / reference-hashed form is the redacted event, and
     # verification redacts again): the redaction rules of C04 are part of this check
     from . import C04 as _C04
